@@ -32,7 +32,11 @@ THEOREMS = [_T + n for n in [
     "C19_key_of_term_from_key", "C19_term_from_key_inj", "C19_tag_init", "C19_feature_init",
     "C19_key_tags_faithful", "C19_key_vocab_nodup",
     "C19_hashdict_sound", "C19_hashdict_needs_contract", "C19_encoder_on_hash_table",
-    "C19_pyeq_canonical", "C19_pyeq_equivalence", "C19_pyhash_respects_eq", "C19_pyhash_reads_only"]]
+    "C19_pyeq_canonical", "C19_pyeq_equivalence", "C19_pyhash_respects_eq", "C19_pyhash_reads_only",
+    # follow-up 3: construction paths and histories
+    "C19_extras_eq_iff_perm", "C19_extras_canonical", "C19_term_paths", "C19_order_hash_breaks",
+    "C19_call_binding", "C19_find_call_styles",
+    "C19_history_cache_sound", "C19_history_cache_stale", "C19_history_hash_now", "C19_history_hash_stale"]]
 LEVEL_TEXT = ("Lean theorems over a model of the encoder as the Python dict it is (insertion-ordered association list, "
               "later equal key overwrites; proved equal to a hash table that compares hashes first whenever ==-equal keys "
               "hash equally): for duplicate-free vocabularies encode = i iff the tag is the i-th vocabulary "
